@@ -171,11 +171,11 @@ func (c *HarnessConfig) maxDelays() int {
 
 func (c *HarnessConfig) maxPreemptions(p *pathState) int {
 	if c != nil && c.curSpec != nil {
-		if c.curSpec.NoPreemption {
-			return 0
-		}
 		if p != nil && p.w.eng.tier == "thorough" && c.curSpec.MaxPreemptionsThorough > 0 {
 			return c.curSpec.MaxPreemptionsThorough
+		}
+		if c.curSpec.NoPreemption {
+			return 0
 		}
 		if c.curSpec.MaxPreemptions > 0 {
 			return c.curSpec.MaxPreemptions
